@@ -63,13 +63,23 @@ fn from_roots(roots: &[f64]) -> Vec<f64> {
 
 /// Calls of *other* forms at the same argument.  Every evaluate is a pure function: its result must not depend
 /// on what was evaluated before it (a shared cache or scratch slot would show here).
+/// Successive calls use a different subset and order of the other forms (every rotation of the list, cut to every
+/// length 1..5), so each of them is at some point the LAST call before the judged one, with each other one before it.
 pub fn disturb(v: f64) {
     use std::hint::black_box;
-    black_box(IntOfLogPoly4 { k: 0.5, coeffs: [1.0, -2.0, 0.25, 3.0], u: 1.5 }.evaluate(v));
-    black_box(IntOfLog { k: 1.0, poly: Poly2([1.0, 2.0, 3.0]) }.evaluate(v));
-    black_box(Log(Poly3([1.0, -1.0, 0.5, 2.0])).evaluate(v));
-    black_box(Poly4([1.0, 2.0, 3.0, 4.0, 5.0]).evaluate(v));
-    black_box(PolyN(vec![1.0, 2.0]).evaluate(v));
+    use std::sync::atomic::{AtomicUsize, Ordering};
+    static TURN: AtomicUsize = AtomicUsize::new(0);
+    let t = TURN.fetch_add(1, Ordering::Relaxed);
+    let (rot, count) = (t % 5, 1 + (t / 5) % 5);
+    for i in 0..count {
+        match (rot + i) % 5 {
+            0 => { black_box(IntOfLogPoly4 { k: 0.5, coeffs: [1.0, -2.0, 0.25, 3.0], u: 1.5 }.evaluate(v)); }
+            1 => { black_box(IntOfLog { k: 1.0, poly: Poly2([1.0, 2.0, 3.0]) }.evaluate(v)); }
+            2 => { black_box(Log(Poly3([1.0, -1.0, 0.5, 2.0])).evaluate(v)); }
+            3 => { black_box(Poly4([1.0, 2.0, 3.0, 4.0, 5.0]).evaluate(v)); }
+            _ => { black_box(PolyN(vec![1.0, 2.0]).evaluate(v)); }
+        }
+    }
 }
 
 // ===================================================================== C01 eval
@@ -275,7 +285,13 @@ pub fn replay_poly(lines: &[Value], _seed: u64) -> ReplayReport {
             rep.samples.push(l.clone());
         }
     }
-    rep.violations.truncate(50);
+    // at most 50 per kind (each kind states a different property; the check keeps the kinds it owns)
+    let mut seen: std::collections::HashMap<String, usize> = Default::default();
+    rep.violations.retain(|v| {
+        let c = seen.entry(v["kind"].as_str().unwrap_or("").to_string()).or_insert(0);
+        *c += 1;
+        *c <= 50
+    });
     rep
 }
 
@@ -565,6 +581,15 @@ macro_rules! pw_mul {
         let alone: Vec<Vec<f64>> = p.segments.iter().map(|x| (x.poly * s).flat()).collect();
         let r = p.clone() * s;
         $sink.ev(pw_event("mul", &p, s, &r, &alone));
+        if $rng.below(2) == 0 {
+            // history: the same object edited in place, the operation again (nothing may be remembered from before)
+            crate::order::edit_in_place($rng, &mut p, true);
+            let alone: Vec<Vec<f64>> = p.segments.iter().map(|x| (x.poly * s).flat()).collect();
+            drop(r);
+            let r = p.clone() * s;
+            $sink.ev(pw_event("mul", &p, s, &r, &alone));
+        }
+        let alone: Vec<Vec<f64>> = p.segments.iter().map(|x| (x.poly * s).flat()).collect();
         // Segment by value
         let sg = p.segments[0];
         let rs = sg * s;
@@ -580,6 +605,15 @@ macro_rules! pw_mul_assign {
         let mut r = p.clone();
         r *= s;
         $sink.ev(pw_event("mul", &p, s, &r, &alone));
+        if $rng.below(2) == 0 {
+            // history: the result edited in place and scaled again in the same buffer
+            crate::order::edit_in_place($rng, &mut r, true);
+            let before = r.clone();
+            let s2 = pw_scalar($rng);
+            let alone: Vec<Vec<f64>> = before.segments.iter().map(|x| (x.poly * s2).flat()).collect();
+            r *= s2;
+            $sink.ev(pw_event("mul", &before, s2, &r, &alone));
+        }
         // Segment: by value and through &mut Segment (two impls)
         let mut sg = p.segments[0];
         sg *= s;
@@ -598,6 +632,14 @@ macro_rules! pw_neg {
         let alone: Vec<Vec<f64>> = p.segments.iter().map(|x| (-x.poly).flat()).collect();
         let r = -p.clone();
         $sink.ev(pw_event("neg", &p, 0.0, &r, &alone));
+        if $rng.below(2) == 0 {
+            let mut p = p;
+            crate::order::edit_in_place($rng, &mut p, true);
+            let alone: Vec<Vec<f64>> = p.segments.iter().map(|x| (-x.poly).flat()).collect();
+            drop(r);
+            let r = -p.clone();
+            $sink.ev(pw_event("neg", &p, 0.0, &r, &alone));
+        }
         $cov.hit(&<$T as Form>::name(), "pw-neg");
     }};
 }
@@ -609,6 +651,14 @@ macro_rules! pw_translate {
         let mut r = p.clone();
         r.translate(s);
         $sink.ev(pw_event("translate", &p, s, &r, &alone));
+        if $rng.below(2) == 0 {
+            crate::order::edit_in_place($rng, &mut r, true);
+            let before = r.clone();
+            let s2 = pw_scalar($rng);
+            let alone: Vec<Vec<f64>> = before.segments.iter().map(|x| { let mut q = x.poly; q.translate(s2); q.flat() }).collect();
+            r.translate(s2);
+            $sink.ev(pw_event("translate", &before, s2, &r, &alone));
+        }
         let mut sg = p.segments[0];
         sg.translate(s);
         $sink.ev(pw_event("translate", &Piecewise { segments: vec![p.segments[0]] }, s, &Piecewise { segments: vec![sg] }, &alone[..1]));
@@ -628,6 +678,14 @@ macro_rules! pw_deriv {
         let alone: Vec<Vec<f64>> = p.segments.iter().map(|x| x.poly.derivative().flat()).collect();
         let r = p.derivative();
         $sink.ev(pw_event("deriv", &p, 0.0, &r, &alone));
+        if $rng.below(2) == 0 {
+            // history: the same object edited in place, differentiated again
+            crate::order::edit_in_place($rng, &mut p, true);
+            let alone: Vec<Vec<f64>> = p.segments.iter().map(|x| x.poly.derivative().flat()).collect();
+            let r = p.derivative();
+            $sink.ev(pw_event("deriv", &p, 0.0, &r, &alone));
+        }
+        let alone: Vec<Vec<f64>> = p.segments.iter().map(|x| x.poly.derivative().flat()).collect();
         let sg = p.segments[0];
         $sink.ev(pw_event("deriv", &Piecewise { segments: vec![sg] }, 0.0, &Piecewise { segments: vec![sg.derivative()] }, &alone[..1]));
         $cov.hit(&<$T as Form>::name(), "pw-deriv");
@@ -1165,13 +1223,30 @@ pub fn drive_spline(seed: u64, n: usize, sink: &mut Sink) -> usize {
             }
         }
         let ks: Vec<Knot> = xs.iter().zip(ys.iter()).map(|(&x, &y)| Knot { x, y }).collect();
-        let r = guarded(|| constrained_spline(&ks));
-        let (ends, coef, pan) = match &r {
-            Ok(p) => (ends_of(p), p.segments.iter().map(|s| jbs(&s.poly.0)).collect::<Vec<_>>(), false),
-            Err(_) => (vec![], vec![], true),
-        };
+        // history: (one input in three) a prefix first, or the whole input and then a prefix: a scratch buffer or an
+        // incremental scheme that outlives the call shows up in the second of the two
+        let mut runs: Vec<&[Knot]> = vec![];
+        if ks.len() >= 4 && rng.below(3) == 0 {
+            let m = 3 + rng.below(ks.len() as u64 - 3) as usize;
+            if rng.bool() {
+                runs.push(&ks[..m]);
+                runs.push(&ks);
+            } else {
+                runs.push(&ks);
+                runs.push(&ks[..m]);
+            }
+        } else {
+            runs.push(&ks);
+        }
+        for ks in runs {
+            let r = guarded(|| constrained_spline(ks));
+            let (ends, coef, pan) = match &r {
+                Ok(p) => (ends_of(p), p.segments.iter().map(|s| jbs(&s.poly.0)).collect::<Vec<_>>(), false),
+                Err(_) => (vec![], vec![], true),
+            };
+            sink.ev(json!({"ev":"spline","knots":jknots(ks),"ends":jbs(&ends),"coef":coef,"panic":pan}));
+        }
         nontrivial += 1;
-        sink.ev(json!({"ev":"spline","knots":jknots(&ks),"ends":jbs(&ends),"coef":coef,"panic":pan}));
     }
     nontrivial
 }
@@ -1245,6 +1320,15 @@ pub fn drive_linear(seed: u64, n: usize, sink: &mut Sink) -> usize {
             };
             x += gap;
         }
+        if ks.len() >= 3 && rng.below(3) == 0 {
+            // history: a prefix of the input first, then the input (an incremental implementation would resume), and
+            // occasionally the longer input first and then its prefix
+            let m = 2 + rng.below(ks.len() as u64 - 2) as usize;
+            if rng.below(4) == 0 {
+                linear_event(&ks, sink);
+            }
+            linear_event(&ks[..m], sink);
+        }
         let r = guarded(|| linear(&ks));
         let (ends, coef, pan, ts, fts) = match &r {
             Ok(p) => {
@@ -1276,9 +1360,29 @@ fn approx_event<T>(ty: &str, a: &T, b: &T, fa: &[f64], fb: &[f64], sa: &[usize],
 where
     T: AbsDiffEq<Epsilon = f64> + RelativeEq,
 {
+    approx_event_ordered(ty, a, b, fa, fb, sa, sb, eps, rel, false)
+}
+
+/// The four relations asked in the usual order, or (history chains) in the reverse one, so that the first question
+/// after an in-place edit is the very question asked last before it.
+fn approx_event_ordered<T>(ty: &str, a: &T, b: &T, fa: &[f64], fb: &[f64], sa: &[usize], sb: &[usize], eps: f64, rel: f64, rev: bool) -> Value
+where
+    T: AbsDiffEq<Epsilon = f64> + RelativeEq,
+{
+    let (abs_ab, abs_ba, rel_ab, rel_ba);
+    if rev {
+        rel_ba = b.relative_eq(a, eps, rel);
+        rel_ab = a.relative_eq(b, eps, rel);
+        abs_ba = b.abs_diff_eq(a, eps);
+        abs_ab = a.abs_diff_eq(b, eps);
+    } else {
+        abs_ab = a.abs_diff_eq(b, eps);
+        abs_ba = b.abs_diff_eq(a, eps);
+        rel_ab = a.relative_eq(b, eps, rel);
+        rel_ba = b.relative_eq(a, eps, rel);
+    }
     json!({"ev":"approx","type":ty,"sa":sa,"a":jbs(fa),"sb":sb,"b":jbs(fb),"eps":jb(eps),"rel":jb(rel),
-        "abs_ab":a.abs_diff_eq(b, eps),"abs_ba":b.abs_diff_eq(a, eps),
-        "rel_ab":a.relative_eq(b, eps, rel),"rel_ba":b.relative_eq(a, eps, rel)})
+        "abs_ab":abs_ab,"abs_ba":abs_ba,"rel_ab":rel_ab,"rel_ba":rel_ba})
 }
 
 // (epsilon, max_relative): equal, absolute-dominated, relative-dominated (max_relative > epsilon: the two must not be
@@ -1353,6 +1457,35 @@ macro_rules! approx_pw {
         // Segment alone
         let sty = format!("Segment<{}>", <$T as Form>::name());
         $n += approx_single::<Segment<$T>>(&sty, &|v| Segment::<$T>::from_flat(v), &base[..ar], &[ar], $rng, $sink);
+        // history: ONE pair of objects; between two comparisons one number of one of them is changed IN PLACE (a
+        // coefficient, an interior or an outer breakpoint; far beyond every tolerance, or back to equality), and the
+        // question asked last before the edit is asked first after it
+        {
+            let a = pw_from_flat::<$T>(&base);
+            let mut b = a.clone();
+            let flatten = |p: &Piecewise<$T>| -> Vec<f64> { p.segments.iter().flat_map(|s| std::iter::once(s.end).chain(s.poly.flat())).collect() };
+            let (eps, rel) = *$rng.pick(&TOLS);
+            for step in 0..5 {
+                if step > 0 {
+                    let i = $rng.below(k as u64) as usize;
+                    if step == 3 {
+                        b = a.clone(); // equal again (a fresh buffer this once)
+                    } else if $rng.below(3) == 0 {
+                        b.segments[i].end = a.segments[i].end + 1.0 + 2.0 * a.segments[i].end.abs();
+                    } else if step == 4 {
+                        b.segments[i] = a.segments[i]; // back to equality in place
+                    } else {
+                        let mut f = b.segments[i].poly.flat();
+                        let j = $rng.below(f.len() as u64) as usize;
+                        f[j] += 1.0 + 100.0 * eps + 2.0 * f[j].abs();
+                        b.segments[i].poly = <$T>::from_flat(&f);
+                    }
+                }
+                let fb = flatten(&b);
+                $sink.ev(approx_event_ordered(&ty, &a, &b, &base, &fb, &shape, &shape, eps, rel, step % 2 == 1));
+                $n += 1;
+            }
+        }
         // different numbers of pieces: a prefix, the empty function, one piece more
         let a = pw_from_flat::<$T>(&base);
         let mut longer = base.clone();
@@ -1467,75 +1600,114 @@ fn borsh_roundtrip<T: MaybeBorsh>(_v: &T) -> Option<Result<T, String>> {
     None
 }
 
-fn serde_all<T>(ty: &str, v: &T, flat: &dyn Fn(&T) -> (Vec<usize>, Vec<f64>), sink: &mut Sink)
+/// One round trip per (value, format), queued: the jobs of a round are run in a SHUFFLED order (history: whatever one
+/// serialization leaves behind -- a per-thread mode, a scratch buffer -- meets every other type and format next).
+type SerdeJob = Box<dyn FnOnce(&mut Sink)>;
+
+fn serde_all<T, F>(ty: &str, v: &T, flat: F, jobs: &mut Vec<SerdeJob>)
 where
-    T: Serialize + DeserializeOwned + PartialEq + MaybeBorsh,
+    T: Serialize + DeserializeOwned + PartialEq + MaybeBorsh + Clone + 'static,
+    F: Fn(&T) -> (Vec<usize>, Vec<f64>) + Copy + 'static,
 {
-    let (shape, a) = flat(v);
+    let (_, a) = flat(v);
     if a.iter().all(|x| x.is_finite()) {
-        let r = serde_json::to_string(v).map_err(|e| e.to_string()).and_then(|s| serde_json::from_str::<T>(&s).map_err(|e| e.to_string()));
-        sink.ev(serde_event(ty, "json", &shape, v, flat, r));
+        let (ty, v) = (ty.to_string(), v.clone());
+        jobs.push(Box::new(move |sink: &mut Sink| {
+            let (shape, _) = flat(&v);
+            let r = serde_json::to_string(&v).map_err(|e| e.to_string()).and_then(|s| serde_json::from_str::<T>(&s).map_err(|e| e.to_string()));
+            sink.ev(serde_event(&ty, "json", &shape, &v, &flat, r));
+        }));
     }
-    let r = serde_cbor::to_vec(v).map_err(|e| e.to_string()).and_then(|b| serde_cbor::from_slice::<T>(&b).map_err(|e| e.to_string()));
-    sink.ev(serde_event(ty, "cbor", &shape, v, flat, r));
-    if let Some(r) = borsh_roundtrip(v) {
-        sink.ev(serde_event(ty, "borsh", &shape, v, flat, r));
+    {
+        let (ty, v) = (ty.to_string(), v.clone());
+        jobs.push(Box::new(move |sink: &mut Sink| {
+            let (shape, _) = flat(&v);
+            let r = serde_cbor::to_vec(&v).map_err(|e| e.to_string()).and_then(|b| serde_cbor::from_slice::<T>(&b).map_err(|e| e.to_string()));
+            sink.ev(serde_event(&ty, "cbor", &shape, &v, &flat, r));
+        }));
+    }
+    {
+        let (ty, v) = (ty.to_string(), v.clone());
+        jobs.push(Box::new(move |sink: &mut Sink| {
+            let (shape, _) = flat(&v);
+            if let Some(r) = borsh_roundtrip(&v) {
+                sink.ev(serde_event(&ty, "borsh", &shape, &v, &flat, r));
+            }
+        }));
     }
 }
 
 macro_rules! serde_form {
-    ($T:ty, $rng:expr, $sink:expr) => {{
+    ($T:ty, $rng:expr, $jobs:expr) => {{
         let finite = $rng.bool();
         let n = <$T as Form>::arity().unwrap();
         let flatv: Vec<f64> = (0..n).map(|_| serde_number($rng, finite)).collect();
         let v = <$T>::from_flat(&flatv);
-        serde_all::<$T>(&<$T as Form>::name(), &v, &|x: &$T| (vec![x.flat().len()], x.flat()), $sink);
+        serde_all::<$T, _>(&<$T as Form>::name(), &v, |x: &$T| (vec![x.flat().len()], x.flat()), $jobs);
         // a segment and a piecewise function of 0..n segments over it
         let sv = Segment { end: serde_number($rng, finite), poly: v };
-        serde_all::<Segment<$T>>(&format!("Segment<{}>", <$T as Form>::name()), &sv, &|x: &Segment<$T>| (vec![x.flat().len()], x.flat()), $sink);
+        serde_all::<Segment<$T>, _>(&format!("Segment<{}>", <$T as Form>::name()), &sv, |x: &Segment<$T>| (vec![x.flat().len()], x.flat()), $jobs);
         let k = $rng.size(6, 20, 4) as usize;
+        // breakpoints: any numbers, or (one function in three) a grid of whole numbers
+        let whole = $rng.below(3) == 0;
         let pw: Piecewise<$T> = Piecewise {
             segments: (0..k)
-                .map(|_| Segment { end: serde_number($rng, finite), poly: <$T>::from_flat(&(0..n).map(|_| serde_number($rng, finite)).collect::<Vec<f64>>()) })
+                .map(|i| Segment {
+                    end: if whole { i as f64 - 2.0 } else { serde_number($rng, finite) },
+                    poly: <$T>::from_flat(&(0..n).map(|_| serde_number($rng, finite)).collect::<Vec<f64>>()),
+                })
                 .collect(),
         };
-        serde_all::<Piecewise<$T>>(&format!("Piecewise<{}>", <$T as Form>::name()), &pw, &|x: &Piecewise<$T>| (vec![n + 1; x.segments.len()], pw_flat(x)), $sink);
+        serde_all::<Piecewise<$T>, _>(&format!("Piecewise<{}>", <$T as Form>::name()), &pw, move |x: &Piecewise<$T>| (vec![n + 1; x.segments.len()], pw_flat(x)), $jobs);
     }};
 }
 
 pub fn drive_serde(seed: u64, rounds: usize, sink: &mut Sink) -> usize {
     let mut rng = Rng::new(seed);
+    let mut jobs: Vec<SerdeJob> = vec![];
     // two functions with more segments than any plausible pre-allocation cap or chunk size
     for &k in &[4097usize, 8200] {
         let pw: Piecewise<Poly1> = Piecewise {
             segments: (0..k).map(|i| Segment { end: i as f64, poly: Poly1([serde_number(&mut rng, true), i as f64]) }).collect(),
         };
-        serde_all::<Piecewise<Poly1>>("Piecewise<Poly1>", &pw, &|x: &Piecewise<Poly1>| (vec![3; x.segments.len()], pw_flat(x)), sink);
+        serde_all::<Piecewise<Poly1>, _>("Piecewise<Poly1>", &pw, |x: &Piecewise<Poly1>| (vec![3; x.segments.len()], pw_flat(x)), &mut jobs);
+    }
+    for j in jobs.drain(..) {
+        j(sink);
     }
     for _ in 0..rounds {
         let rng = &mut rng;
+        let jobs = &mut jobs;
         {
             let finite = rng.bool();
             let k = Knot { x: serde_number(rng, finite), y: serde_number(rng, finite) };
-            serde_all::<Knot>("Knot", &k, &|x: &Knot| (vec![2], vec![x.x, x.y]), sink);
+            serde_all::<Knot, _>("Knot", &k, |x: &Knot| (vec![2], vec![x.x, x.y]), jobs);
         }
-        serde_form!(Poly0, rng, sink);
-        serde_form!(Poly1, rng, sink);
-        serde_form!(Poly2, rng, sink);
-        serde_form!(Poly3, rng, sink);
-        serde_form!(Poly4, rng, sink);
-        serde_form!(Poly5, rng, sink);
-        serde_form!(Poly6, rng, sink);
-        serde_form!(Poly7, rng, sink);
-        serde_form!(Poly8, rng, sink);
-        serde_form!(Log<Poly0>, rng, sink);
-        serde_form!(Log<Poly4>, rng, sink);
-        serde_form!(Log<Poly8>, rng, sink);
-        serde_form!(IntOfLog<Poly0>, rng, sink);
-        serde_form!(IntOfLog<Poly2>, rng, sink);
-        serde_form!(IntOfLog<Poly5>, rng, sink);
-        serde_form!(IntOfLog<Poly8>, rng, sink);
-        serde_form!(IntOfLogPoly4, rng, sink);
+        serde_form!(Poly0, rng, jobs);
+        serde_form!(Poly1, rng, jobs);
+        serde_form!(Poly2, rng, jobs);
+        serde_form!(Poly3, rng, jobs);
+        serde_form!(Poly4, rng, jobs);
+        serde_form!(Poly5, rng, jobs);
+        serde_form!(Poly6, rng, jobs);
+        serde_form!(Poly7, rng, jobs);
+        serde_form!(Poly8, rng, jobs);
+        serde_form!(Log<Poly0>, rng, jobs);
+        serde_form!(Log<Poly4>, rng, jobs);
+        serde_form!(Log<Poly8>, rng, jobs);
+        serde_form!(IntOfLog<Poly0>, rng, jobs);
+        serde_form!(IntOfLog<Poly2>, rng, jobs);
+        serde_form!(IntOfLog<Poly5>, rng, jobs);
+        serde_form!(IntOfLog<Poly8>, rng, jobs);
+        serde_form!(IntOfLogPoly4, rng, jobs);
+        // Fisher-Yates with the driver's generator
+        for i in (1..jobs.len()).rev() {
+            let j = rng.below(i as u64 + 1) as usize;
+            jobs.swap(i, j);
+        }
+        for j in jobs.drain(..) {
+            j(sink);
+        }
     }
     sink.n
 }
